@@ -67,6 +67,16 @@ pub struct Scenario {
     pub references: Vec<usize>,
     pub store: Vec<SUtxo>,
     pub n_parties: usize,
+    /// blocks that only add to the body: signers, validity bounds, a metadata entry
+    pub extras: Vec<Extra>,
+}
+
+#[derive(Clone, Debug, PartialEq)]
+pub enum Extra {
+    Signers(Vec<usize>),
+    Until(u64),
+    Window(u64, u64),
+    Meta(u64, String),
 }
 
 pub fn party_addr(i: usize) -> Vec<u8> {
@@ -170,6 +180,14 @@ impl Scenario {
             }
             s.push_str("  }\n");
         }
+        for e in &self.extras {
+            match e {
+                Extra::Signers(ps) => s.push_str(&format!("  signers {{\n{}  }}\n", ps.iter().map(|p| format!("    {},\n", self.who(*p))).collect::<String>())),
+                Extra::Until(u) => s.push_str(&format!("  validity {{\n    until_slot: {},\n  }}\n", u)),
+                Extra::Window(a, b) => s.push_str(&format!("  validity {{\n    since_slot: {},\n    until_slot: {},\n  }}\n", a, b)),
+                Extra::Meta(k, v) => s.push_str(&format!("  metadata {{\n    {}: \"{}\",\n  }}\n", k, v)),
+            }
+        }
         s.push_str("}\n");
         s
     }
@@ -222,11 +240,13 @@ pub struct ROpts {
     pub allow_reference_blocks: bool,
     /// input blocks whose names differ in case only (the IR spells every name in lower case)
     pub allow_names_differing_in_case: bool,
+    /// signers, validity and metadata blocks (they change the size of the body, hence the fee)
+    pub allow_extras: bool,
 }
 
 impl Default for ROpts {
     fn default() -> Self {
-        ROpts { max_inputs: 3, allow_min_utxo: true, allow_tokens: true, allow_refs: true, allow_collateral: true, tight_store: false, max_outputs: 3, allow_reference_blocks: false, allow_names_differing_in_case: false }
+        ROpts { max_inputs: 3, allow_min_utxo: true, allow_tokens: true, allow_refs: true, allow_collateral: true, tight_store: false, max_outputs: 3, allow_reference_blocks: false, allow_names_differing_in_case: false, allow_extras: false }
     }
 }
 
@@ -351,5 +371,20 @@ pub fn generate(t: &mut Tape, o: &ROpts) -> Scenario {
             }
         }
     }
-    Scenario { tx_name: "move_funds".into(), params, ins, outs, collateral, references, store, n_parties }
+    let mut extras = vec![];
+    if o.allow_extras {
+        if t.chance(1, 3) {
+            let n = 1 + t.pick(n_parties.min(3));
+            extras.push(Extra::Signers((0..n).collect()));
+        }
+        match t.pick(6) {
+            0 => extras.push(Extra::Until(1_000_000 + t.pick(60_000) as u64 * 1000)),
+            1 => extras.push(Extra::Window(t.pick(500) as u64, 100_000_000 + t.pick(60_000) as u64)),
+            _ => {}
+        }
+        if t.chance(1, 4) {
+            extras.push(Extra::Meta(674 + t.pick(3) as u64, ["note", "", "a longer remark that takes up space in the auxiliary data"][t.pick(3)].to_string()));
+        }
+    }
+    Scenario { tx_name: "move_funds".into(), params, ins, outs, collateral, references, store, n_parties, extras }
 }
